@@ -23,10 +23,15 @@ import (
 )
 
 func init() {
-	register("c13", "two sub-streams: (add) every transition of the breadth-first closure of manifests reachable by "+
-		"addEndorsementEntry over 3 digests x 3 paths x 2 times plus random ill-formed manifests; (hist) real "+
-		"endorse.VirtualFirmware histories over a scratch localnonvcs directory. Non-trivial: the initial manifest "+
-		"is non-empty (add) or the history has at least 2 runs with at least one successful (hist); distinct by op line.", runC13)
+	register("c13", "four sub-streams: (add) every transition of the breadth-first closure of manifests reachable by "+
+		"addEndorsementEntry over 3 digests x 3 paths x 2 times plus random ill-formed manifests; (clean, join) Go's "+
+		"path.Clean on every text over {/ . a} up to length 7 and random ones with unicode, path.Join on every pair of "+
+		"the texts up to length 3 and sampled triples; (histp) real endorse.VirtualFirmware histories over a scratch "+
+		"localnonvcs tree with ARBITRARY candidate names, --out_dir, --snapshot_dir and image names (uncanonical, "+
+		"climbing, rooted, empty, dots, trailing and double slashes, unicode; directed alias and overlap histories "+
+		"first), compared: success flags, manifest, every file of the tree with its class. Non-trivial: the initial "+
+		"manifest is non-empty (add), the text has a slash (clean), always (join), the history has at least 2 runs with "+
+		"at least one successful (histp); distinct by op line.", runC13)
 }
 
 type mEntry struct{ path, digest, time string }
@@ -151,79 +156,332 @@ func runC13(c *Ctx) {
 		}
 	}
 
-	// ---- (hist) real endorse runs over a scratch directory ----
-	root, err := os.MkdirTemp("", "verif-c13-")
+	// ---- (clean/join) the model of Go's package path against the real path.Clean / path.Join ----
+	c13Paths(c)
+
+	// ---- (histp) real endorse runs over a scratch directory, arbitrary names ----
+	c13Hist(c)
+}
+
+// c13Paths compares path.Clean and path.Join (the package endorse/commit.go imports) with the model:
+// every text over {'/', '.', 'a'} up to length 7 (8 thorough), random longer ones with unicode, and Join of
+// every pair (triples sampled) of the texts up to length 3.
+func c13Paths(c *Ctx) {
+	alpha := []string{"/", ".", "a"}
+	var small []string
+	var gen func(prefix string, n int)
+	maxLen := c.N(7, 8)
+	gen = func(prefix string, n int) {
+		c.Case("c13 op=clean p="+prefix, path.Clean(prefix), strings.Contains(prefix, "/"))
+		c.Count(fmt.Sprintf("clean/len%d", len(prefix)))
+		if len(prefix) <= 3 {
+			small = append(small, prefix)
+		}
+		if n == 0 {
+			return
+		}
+		for _, a := range alpha {
+			gen(prefix+a, n-1)
+		}
+	}
+	gen("", maxLen)
+	wide := []string{"/", "/", ".", "..", "a", "b", "é", "日本", "-", "_", "x.binarypb", "//", "./", "../"}
+	rnd := func() string {
+		n := c.Rng.Intn(9)
+		var sb strings.Builder
+		for k := 0; k < n; k++ {
+			sb.WriteString(wide[c.Rng.Intn(len(wide))])
+		}
+		return sb.String()
+	}
+	for i := 0; i < c.N(3000, 60000); i++ {
+		p := rnd()
+		c.Case("c13 op=clean p="+p, path.Clean(p), strings.Contains(p, "/"))
+		c.Count("clean/random")
+	}
+	joinCase := func(es ...string) {
+		var kv []string
+		for k, e := range es {
+			kv = append(kv, fmt.Sprintf("e%d=%s", k, e))
+		}
+		c.Case(fmt.Sprintf("c13 op=join n=%d %s", len(es), strings.Join(kv, " ")), path.Join(es...), true)
+		c.Count(fmt.Sprintf("join/n%d", len(es)))
+	}
+	for _, a := range small {
+		for _, b := range small {
+			joinCase(a, b)
+		}
+	}
+	for i := 0; i < c.N(4000, 80000); i++ {
+		joinCase(small[c.Rng.Intn(len(small))], small[c.Rng.Intn(len(small))], small[c.Rng.Intn(len(small))])
+	}
+	for i := 0; i < c.N(2000, 40000); i++ {
+		joinCase(rnd(), rnd(), rnd())
+	}
+}
+
+// ---- histories with arbitrary names ----
+
+type c13Run struct {
+	cand      string
+	img       int
+	ow        bool
+	snapDir   string // "" = manifest mode
+	imageName string
+	scrtm     bool
+}
+
+// Name pools. Free of ' ', ':', ';', '=', ',' (protocol separators); otherwise anything Clean cares about.
+var (
+	c13Cands = []string{
+		"", "rc0", "rc1", "rc2", "rc0", "rc1", // plain (twice: collisions matter)
+		"x/../rc0", "./rc1", "sub/rc2", "sub/../sub/rc2", "sub/./rc2", "a//b", "rc0/.", "./././rc1", // uncanonical
+		"rc1/", "sub/", "./", // trailing slash: the file is "<dir>/.binarypb"
+		".", "..", "...", "a/.../b", // dots as names
+		"../x", "../out/rc0", "a/../../x", "../../y", "../", "sub/../../out/rc1", // climbing
+		"/rc0", "//rc1", "/", "/sub/rc2", "/../rc0", // rooted
+		"é/日本", "ü", "日本/../rc0", // unicode
+	}
+	c13OutDirs   = []string{"out", "out", "out", "", ".", "./out//", "out/", "out/sub/..", "/abs", "a/../out", "../o", "é", "out/sub"}
+	c13SnapDirs  = []string{"snap", "snap", "snap/", "./snap//x/..", "../s", "/snapabs", "out", "out/sub", "日本"}
+	c13ImageName = []string{"fw.fd", "fw.fd", "ovmf_x64_csm.fd", "", ".", "../q/fw.fd", "/", "d/fw.fd", "d//./fw.fd", "rc0.binarypb",
+		"manifest.textproto", "日本.fd", "fw.fd/", "../../z.fd", "sub/rc2.binarypb"}
+)
+
+// c13Local: is the text, cleaned, a relative path that neither climbs nor is "."? (package path only)
+func c13Local(name string) bool {
+	p := path.Clean(name)
+	return !(p == "." || p == ".." || path.IsAbs(p) || strings.HasPrefix(p, "../"))
+}
+
+func c13Inside(dir, p string) bool {
+	rel, err := filepath.Rel(dir, p)
+	return err == nil && rel != ".." && !strings.HasPrefix(rel, "../")
+}
+
+func c13Hist(c *Ctx) {
+	tmp, err := os.MkdirTemp("", "verif-c13-")
 	if err != nil {
 		panic(err)
 	}
-	defer os.RemoveAll(root)
+	defer os.RemoveAll(tmp)
 	images := [][]byte{cleanFirmware(0x1000, 1), cleanFirmware(0x1000, 2), cleanFirmware(0x1000, 3), cleanFirmware(0x2000, 4)}
-	cands := []string{"", "rc0", "rc1", "rc2", "rc0", "rc1", "x/../rc0", "./rc1", "sub/rc2", "sub/../sub/rc2"}
-	nh := c.N(25, 400)
+	const modelRoot = "/T/a/b/c/r"
+	// directed histories first: aliases of one file, climbing and rooted names, overlap of the two directories
+	type directed struct {
+		out  string
+		runs []c13Run
+	}
+	M := func(cand string, img int, ow bool) c13Run { return c13Run{cand: cand, img: img, ow: ow} }
+	S := func(sdir, name string) c13Run {
+		return c13Run{cand: "x", img: 0, snapDir: sdir, imageName: name, scrtm: true}
+	}
+	dirs := []directed{
+		{"out", []c13Run{M("rc0", 0, false), M("/rc0", 1, true)}},
+		{"out", []c13Run{M("rc0", 0, false), M("../out/rc0", 1, true)}},
+		{"out", []c13Run{M("rc0", 0, false), M("x/../rc0", 1, true), M("./rc0", 2, true), M("rc0", 0, false)}},
+		{"out", []c13Run{M("../x", 0, false), M("../../x", 0, false), M("a/../../x", 1, true)}},
+		{"", []c13Run{M("../x", 0, false), M("rc0", 0, false), M("./rc0", 1, true)}},
+		{"out/", []c13Run{M("rc0", 0, false), M("rc0", 1, false), M("rc1", 0, false)}},
+		{"./out//", []c13Run{M("rc0", 0, false), M("rc1", 0, false), M("rc0", 1, true)}},
+		{"out", []c13Run{M("rc0", 0, false), S("out", "rc0.binarypb"), M("rc1", 1, false)}},
+		{"out", []c13Run{M("rc0", 0, false), S("out", "manifest.textproto"), M("rc1", 1, false)}},
+		{"out", []c13Run{M("sub/rc2", 0, false), S("out/sub", "rc2.binarypb"), S("out", "sub/rc2.binarypb")}},
+		{"out", []c13Run{S("s1", ""), S("s2", "."), S("s3", "../q/fw.fd"), S("/", "x.fd"), S("snap", "fw.fd"), S("snap/", "d//./fw.fd")}},
+		{"out", []c13Run{M("a/", 0, false), M(".", 0, false), M("..", 1, false), M("é/日本", 2, false), M("a/.", 3, true)}},
+	}
+	nh := c.N(160, 2500)
 	for h := 0; h < nh; h++ {
-		dir := filepath.Join(root, fmt.Sprintf("h%d", h))
-		os.MkdirAll(dir, 0755)
+		top := filepath.Join(tmp, fmt.Sprintf("h%d", h))
+		root := filepath.Join(top, "a", "b", "c", "r")
+		os.MkdirAll(root, 0755)
+		outDir := c13OutDirs[c.Rng.Intn(len(c13OutDirs))]
+		if h < len(dirs) {
+			outDir = dirs[h].out
+		} else if h < len(dirs)+len(c13OutDirs) {
+			outDir = c13OutDirs[h-len(dirs)]
+		}
+		outReal := path.Join(root, outDir)
+		manifestReal := path.Join(outReal, endorse.ManifestFile)
 		nruns := 1 + c.Rng.Intn(c.N(8, 12))
+		if h < len(dirs) {
+			nruns = len(dirs[h].runs)
+			c.Count("hist/directed")
+		}
 		var runToks, oks []string
-		anyOK := false
-		for r := 0; r < nruns; r++ {
-			img := images[c.Rng.Intn(len(images))]
-			cand := cands[c.Rng.Intn(len(cands))]
-			ow := c.Rng.Intn(3) == 0
+		anyOK, tainted, conflict := false, false, false
+		replay := func() string {
+			return fmt.Sprintf("out=%s runs=%s", outDir, strings.Join(runToks, ";"))
+		}
+		for r := 0; r < nruns && !conflict; r++ {
+			run := c13Run{cand: c13Cands[c.Rng.Intn(len(c13Cands))], img: c.Rng.Intn(len(images)), ow: c.Rng.Intn(3) == 0}
+			if h < 2*len(c13Cands) && r == 1 { // every name at least twice, early in a history
+				run.cand = c13Cands[h%len(c13Cands)]
+			}
+			if c.Rng.Intn(5) == 0 {
+				run.snapDir = c13SnapDirs[c.Rng.Intn(len(c13SnapDirs))]
+				run.imageName = c13ImageName[c.Rng.Intn(len(c13ImageName))]
+				run.scrtm = c.Rng.Bool()
+			}
+			if h < len(dirs) {
+				run = dirs[h].runs[r]
+			}
 			ts := baseTime.Add(time.Duration(h*100+r) * time.Second)
-			dg := sha512.Sum384(img)
-			snap := c.Rng.Intn(6) == 0
-			before := snapshotFiles(filepath.Join(dir, "out"))
-			err := runEndorseMode(dir, img, cand, ow, ts, snap)
-			if !ow {
-				// no-overwrite clause, evaluated on the disk: every file that existed keeps its bytes
-				after := snapshotFiles(filepath.Join(dir, "out"))
-				for p, b := range before {
-					if strings.HasSuffix(p, ".binarypb") && after[p] != b {
-						c.Find("c13/hist/replaced-without-overwrite", "an existing endorsement file was replaced by a run without overwrite permission",
-							strings.Join(append(append([]string{}, runToks...), fmt.Sprintf("%s:%s:%d:%s:%s", cand, hx(dg[:]), ts.Unix(), b2s(ow), b2s(snap))), ";"))
-					}
+			dg := sha512.Sum384(images[run.img])
+			before := snapshotFiles(top)
+			listedBefore := map[string]bool{}
+			if mb, err := readManifestAt(manifestReal); err == nil {
+				for _, e := range mb {
+					listedBefore[path.Join(outReal, e.path)] = true
 				}
 			}
-			// the model sees the canonical spelling of the candidate (computed here with path.Clean,
-			// independently of the code under test); the direct oracle below works on the disk
-			runToks = append(runToks, fmt.Sprintf("%s:%s:%d:%s:%s", cleanCand(cand), hx(dg[:]), ts.Unix(), b2s(ow), b2s(snap)))
-			if snap {
-				c.Count("hist/snapshot-run")
+			err := c13Endorse(root, outDir, images[run.img], run, ts)
+			if err != nil && (strings.Contains(err.Error(), "is a directory") || strings.Contains(err.Error(), "not a directory")) {
+				// the same path used as a file and as a directory: outside the file-granularity model of the file system
+				conflict = true
+				c.Count("hist/dropped-fs-structure-conflict")
+				break
 			}
-			if cleanCand(cand) != cand {
-				c.Count("hist/unclean-candidate")
+			if _, osErr := os.ReadFile(manifestReal); osErr != nil && !os.IsNotExist(osErr) {
+				// the manifest's path (or a directory above it) has become a file of another kind / a directory
+				conflict = true
+				c.Count("hist/dropped-fs-structure-conflict")
+				break
 			}
+			runToks = append(runToks, fmt.Sprintf("%s:%s:%d:%s:%s:%s:0:%s", run.cand, hx(dg[:]), ts.Unix(), b2s(run.ow), run.snapDir, run.imageName, b2s(run.scrtm)))
 			oks = append(oks, b2s(err == nil))
+			after := snapshotFiles(top)
+			var changed []string
+			for p, b := range after {
+				if ob, ok := before[p]; !ok || ob != b {
+					changed = append(changed, filepath.Join(top, p))
+				}
+			}
+			sort.Strings(changed)
+			c13CountRun(c, run, outDir, err)
 			if err == nil {
 				anyOK = true
-				c.Count("hist/run-ok")
-			} else {
-				c.Count("hist/run-rejected")
 			}
-			// direct oracle after every run
-			checkStoreInvariant(c, dir, strings.Join(runToks, ";"))
-			if err == nil && !snap {
-				// latest digest maps to the file this run wrote
-				m, _ := readManifest(dir)
-				want := endorseBasename(cleanCand(cand))
-				ok := false
-				for _, e := range m {
-					if e.digest == hx(dg[:]) && e.path == want {
-						ok = true
+			// ---- direct oracle, on the directory tree alone ----
+			if run.snapDir == "" {
+				var wrote []string
+				for _, p := range changed {
+					if !c13Inside(outReal, p) {
+						c.Find("c13/hist/escape-out-dir", "a manifest-mode run wrote a file outside the configured output directory: "+tok(strings.TrimPrefix(p, top)), replay())
+					}
+					if p != manifestReal {
+						wrote = append(wrote, p)
+						if _, existed := before[strings.TrimPrefix(p, top+"/")]; existed && !run.ow {
+							c.Find("c13/hist/replaced-without-overwrite", "an existing file was replaced by a run without overwrite permission", replay())
+						}
 					}
 				}
-				if !ok {
-					c.Find("c13/hist/latest", "latest run's digest does not map to the file it wrote", strings.Join(runToks, ";"))
+				if err != nil && len(changed) > 0 {
+					c.Find("c13/hist/failed-run-wrote", "a refused run changed files", replay())
+				}
+				if err == nil && !tainted {
+					// latest digest maps to the file this run wrote
+					m, _ := readManifestAt(manifestReal)
+					ok := false
+					for _, e := range m {
+						if e.digest == hx(dg[:]) && len(wrote) == 1 && path.Join(outReal, e.path) == wrote[0] {
+							ok = true
+						}
+					}
+					if !ok {
+						c.Find("c13/hist/latest", "latest run's digest does not map to the file it wrote", replay())
+					}
+				}
+			} else {
+				snapReal := path.Join(root, run.snapDir)
+				for _, p := range changed {
+					if p == manifestReal || listedBefore[p] {
+						if !tainted {
+							c.Count("hist/obs/snapshot-overlaps-out-dir")
+						}
+						tainted = true // --snapshot_dir overlaps --out_dir and the image carries a reserved name: outside the reading
+					}
+					if !c13Inside(snapReal, p) {
+						if c13Local(run.imageName) {
+							c.Find("c13/hist/escape-snapshot-dir", "a snapshot run with a local image name wrote outside the snapshot directory: "+tok(strings.TrimPrefix(p, top)), replay())
+						} else {
+							c.Count("hist/obs/snapshot-escape-nonlocal-image-name")
+						}
+					}
 				}
 			}
+			if !tainted {
+				c13CheckStore(c, outReal, manifestReal, replay())
+			}
 		}
-		m, _ := readManifest(dir)
-		files := listEndorsementFiles(dir)
-		c.Case("c13 op=hist runs="+strings.Join(runToks, ";"),
-			fmt.Sprintf("ok=%s manifest=%s files=%s", strings.Join(oks, ","), showEntries(m), strings.Join(files, ",")),
+		if conflict {
+			continue
+		}
+		// ---- correspondence: flags, manifest, every file under the scratch tree ----
+		man := "garbage"
+		m, merr := readManifestAt(manifestReal)
+		if merr == nil {
+			man = showEntries(m)
+		}
+		var files []string
+		for rel := range snapshotFiles(top) {
+			full := filepath.Join(top, rel)
+			if full == manifestReal && merr == nil {
+				continue
+			}
+			cls := "B"
+			if d, err := signedDigestOf(full); err == nil && len(d) == 96 {
+				cls = "E:" + d
+			}
+			files = append(files, "/T/"+rel+":"+cls)
+		}
+		sort.Strings(files)
+		c.Case(fmt.Sprintf("c13 op=histp mode=join root=%s out=%s runs=%s", modelRoot, outDir, strings.Join(runToks, ";")),
+			fmt.Sprintf("ok=%s manifest=%s files=%s", strings.Join(oks, ","), man, strings.Join(files, ",")),
 			nruns >= 2 && anyOK)
-		c.Count(fmt.Sprintf("hist/len%d", nruns))
+		c.Count(fmt.Sprintf("hist/len%d", len(runToks)))
+		os.RemoveAll(top)
+	}
+}
+
+func c13CountRun(c *Ctx, run c13Run, outDir string, err error) {
+	res := "ok"
+	if err != nil {
+		res = "rejected"
+		switch {
+		case strings.Contains(err.Error(), "cannot overwrite"):
+			res = "rejected-exists"
+		case strings.Contains(err.Error(), "does not name a file below"):
+			res = "rejected-name"
+		case strings.Contains(err.Error(), "unmarshal"):
+			res = "rejected-manifest-garbage"
+		}
+	}
+	if run.snapDir != "" {
+		c.Count("hist/snapshot-run-" + res)
+		if !c13Local(run.imageName) {
+			c.Count("hist/snapshot-nonlocal-image-name")
+		}
+		return
+	}
+	c.Count("hist/run-" + res)
+	b := path.Clean(run.cand + ".binarypb")
+	switch {
+	case run.cand == "":
+		c.Count("hist/cand/default")
+	case path.IsAbs(b):
+		c.Count("hist/cand/rooted")
+	case strings.HasPrefix(b, "../"):
+		c.Count("hist/cand/climbing")
+	case b != run.cand+".binarypb":
+		c.Count("hist/cand/uncanonical")
+	case strings.Contains(b, "/"):
+		c.Count("hist/cand/nested")
+	default:
+		c.Count("hist/cand/plain")
+	}
+	if path.Clean(outDir) != outDir {
+		c.Count("hist/outdir-uncanonical-or-empty")
 	}
 }
 
@@ -241,13 +499,6 @@ func snapshotFiles(root string) map[string]string {
 	return out
 }
 
-func cleanCand(cand string) string {
-	if cand == "" {
-		return ""
-	}
-	return strings.TrimSuffix(path.Clean(cand+".binarypb"), ".binarypb")
-}
-
 func endorseBasename(cand string) string {
 	if cand == "" {
 		cand = "endorsement"
@@ -255,29 +506,28 @@ func endorseBasename(cand string) string {
 	return cand + ".binarypb"
 }
 
-func runEndorse(dir string, img []byte, cand string, overwrite bool, ts time.Time) error {
-	return runEndorseMode(dir, img, cand, overwrite, ts, false)
-}
-
-func runEndorseMode(dir string, img []byte, cand string, overwrite bool, ts time.Time, snapshot bool) error {
-	ctx := keysCtx(quietCtx(overwrite), &Rng{s: 7})
+func c13Endorse(root, outDir string, img []byte, run c13Run, ts time.Time) error {
+	ctx := keysCtx(quietCtx(run.ow), &Rng{s: 7})
+	svn := uint32(0)
+	if run.scrtm {
+		svn = 1
+	}
 	ec := &endorse.Context{
-		SevSnp:        &sev.SnpEndorsementRequest{Svn: 1, LaunchVmsas: 1, Product: sgpb.SevProduct_SEV_PRODUCT_MILAN},
+		SevSnp:        &sev.SnpEndorsementRequest{Svn: svn, LaunchVmsas: 1, Product: sgpb.SevProduct_SEV_PRODUCT_MILAN},
 		Image:         img,
 		ClSpec:        1234,
-		CandidateName: cand,
+		CandidateName: run.cand,
 		Timestamp:     ts,
-		VCS:           &localnonvcs.T{Root: dir},
-		OutDir:        "out",
-	}
-	if snapshot {
-		ec.SnapshotDir, ec.ImageName = "snap", "ovmf_x64_csm.fd"
+		VCS:           &localnonvcs.T{Root: root},
+		OutDir:        outDir,
+		SnapshotDir:   run.snapDir,
+		ImageName:     run.imageName,
 	}
 	return endorse.VirtualFirmware(endorse.NewContext(ctx, ec))
 }
 
-func readManifest(dir string) ([]mEntry, error) {
-	b, err := os.ReadFile(filepath.Join(dir, "out", endorse.ManifestFile))
+func readManifestAt(p string) ([]mEntry, error) {
+	b, err := os.ReadFile(p)
 	if err != nil {
 		if os.IsNotExist(err) {
 			return nil, nil
@@ -308,35 +558,29 @@ func signedDigestOf(path string) (string, error) {
 	return hx(g.Digest), nil
 }
 
-func listEndorsementFiles(dir string) []string {
-	var out []string
-	root := filepath.Join(dir, "out")
-	filepath.Walk(root, func(p string, info os.FileInfo, err error) error {
-		if err == nil && !info.IsDir() && strings.HasSuffix(p, ".binarypb") {
-			d, err := signedDigestOf(p)
-			if err != nil {
-				d = "unreadable"
-			}
-			rel, _ := filepath.Rel(root, p)
-			out = append(out, rel+":"+d)
-		}
-		return nil
-	})
-	sort.Strings(out)
-	return out
-}
-
-func checkStoreInvariant(c *Ctx, dir, hist string) {
-	m, err := readManifest(dir)
+// c13CheckStore: the invariant of C13 on the directory tree: the manifest parses; no path text and no digest
+// twice; every path is in canonical form and stays below the directory; no two entries name the same file;
+// every entry's file is an endorsement carrying the entry's digest.
+func c13CheckStore(c *Ctx, outReal, manifestReal, hist string) {
+	m, err := readManifestAt(manifestReal)
 	if err != nil {
-		c.Find("c13/hist/parse", "manifest does not parse: "+err.Error(), hist)
+		c.Find("c13/hist/parse", "manifest does not parse: "+tok(err.Error()), hist)
 		return
 	}
 	if !manifestUnique(m) {
 		c.Find("c13/hist/unique", "manifest lists a path or digest twice", hist)
 	}
+	seen := map[string]bool{}
 	for _, e := range m {
-		d, err := signedDigestOf(filepath.Join(dir, "out", e.path))
+		if path.Clean(e.path) != e.path || path.IsAbs(e.path) || e.path == ".." || strings.HasPrefix(e.path, "../") {
+			c.Find("c13/hist/uncanonical-entry", "an entry's path is not a cleaned path below the output directory: "+tok(e.path), hist)
+		}
+		full := path.Join(outReal, e.path)
+		if seen[full] {
+			c.Find("c13/hist/same-file-twice", "two entries name the same file", hist)
+		}
+		seen[full] = true
+		d, err := signedDigestOf(full)
 		if err != nil {
 			c.Find("c13/hist/file-missing", "entry names a missing or unreadable file", hist)
 		} else if d != e.digest {
